@@ -1,5 +1,5 @@
 From Coq Require Import Extraction ExtrOcamlBasic.
 From CLL Require Import LockProg LockProgs.
-Extraction "../ocaml/locks_model.ml" wo_trace accepts rank ordered
+Extraction "../ocaml/locks_model.ml" wo_trace accepts rank ordered trace_ordered
   call_sync call_async inv_by invc invw invall stats_op cachelito_progs
   RG_TAG RG_EVENT RG_DEP RG_META RG_CLEAR RG_CHECK SR LO LM.
